@@ -413,6 +413,16 @@ class SurfaceMonitor(Monitor):
                 self.fail("notification-envelope", "%r" % {k: body.get(k) for k in ("detail-type", "source", "resources")})
             if n["subject"] != "%s.%s" % (d.get("stateMachineArn"), d.get("status")):
                 self.fail("notification-subject", "subject %r for %r/%r" % (n["subject"], d.get("stateMachineArn"), d.get("status")))
+            # every notification of an execution tells the same story about what was started: input, name, start date, state machine (also for EXPRESS executions,
+            # whose only surface the notifications are)
+            if not hasattr(self, "first_note"):
+                self.first_note = {}
+            if d.get("status") == "RUNNING":
+                self.first_note[arn] = d          # (a name used again starts a new story)
+            first = self.first_note.setdefault(arn, d)
+            for f in ("input", "name", "stateMachineArn"):
+                if first.get(f) != d.get(f):
+                    self.fail("notification-%s-changed" % f, "%s: the %s notification has %s=%r, the %s notification had %r" % (arn, d.get("status"), f, d.get(f), first.get("status"), first.get(f)))
             key = (arn, d.get("status"))
             self.changes[key] = self.changes.get(key, 0) + 1
             if self.changes[key] > 1:
